@@ -42,7 +42,7 @@ theorem widen_eq_ok {α} {t : ATag} {xs : List Val} {fs : List (Val → Res Val)
   | ok b => exact h
   | err cs =>
     simp only [widen] at h
-    split at h <;> cases h
+    split at h <;> (try split at h) <;> cases h
   | panic w => cases h
   | nondet => cases h
   | unmodelled w => cases h
